@@ -34,16 +34,18 @@ def filter_shards(tier):
         # 10015 filters (5 leaves, depth<=2, width<=2) x {wrapped, raw} x one layout each, 12+4 entry shapes
         return [shard(f"q{l}", [l]) for l in (16, 17, 4, 22)]
     sh = []
-    # 18726 filters (6 leaves) x {wrapped, raw} x all 32 layouts of {eq,pres}x{a,b} x {sub+ord on/off}
+    # 18726 filters (6 leaves) x {wrapped, raw} x the 16 layouts of {eq,pres}x{a,b} with sub+ord indexed
     for i in range(8):
-        sh.append(shard(f"t{i}", [4 * i + 1, 4 * i + 2, 4 * i + 3, 4 * i + 4], leaf="small"))
-    # the full 11-leaf alphabet at depth 1, all layouts
+        sh.append(shard(f"t{i}", [2 * i + 1, 2 * i + 2], leaf="small"))
+    # without substring / ordering indexes: 4 representative layouts, 5 leaves
+    sh.append(shard("tz", [17, 22, 27, 32], leaf="tiny"))
+    # the full 12-leaf alphabet (with Self and Invalid) at depth 1, all 32 layouts
     sh.append(shard("tfull", list(range(1, 33)), leaf="full", depth=1))
     # sampled depth 3
-    sh.append(shard("td3a", [16, 22], leaf="tiny", depth=3, samplek=50))
-    # latent threshold arms (the shipped constant is 0): thresholds 1 and 2 on all databases of <= 2 entries
-    sh.append(shard("tth1", [16], leaf="tiny", depth=2, dbset="le2", thres=1, wraps="FALSE", casecap=0))
-    sh.append(shard("tth2", [16], leaf="tiny", depth=2, dbset="le2", thres=2, wraps="FALSE", casecap=0))
+    sh.append(shard("td3a", [16, 22], leaf="tiny", depth=3, samplek=40))
+    # latent threshold arms (the shipped constant is 0): thresholds 1 and 2 on databases of <= 2 entries
+    sh.append(shard("tth1", [16], leaf="tiny", depth=2, dbset="le2s", thres=1, wraps="FALSE", casecap=0))
+    sh.append(shard("tth2", [16], leaf="tiny", depth=2, dbset="le2s", thres=2, wraps="FALSE", casecap=0))
     return sh
 
 
